@@ -849,11 +849,14 @@ class EventGenerator:
         """
         if isinstance(value, self.context.class_type.derived_element):
             choice = var.find_choice(value.qname)
-            value = value.value
 
-            if self.context.class_type.is_model(value):
+            if choice and choice.is_wildcard:
+                func = self.convert_any_type
+            elif self.context.class_type.is_model(value.value):
+                value = value.value
                 func = self.convert_xsi_type
             else:
+                value = value.value
                 func = self.convert_element
 
         elif isinstance(value, self.context.class_type.any_element) and value.qname:
